@@ -1,7 +1,205 @@
-/- Driver glue for C01: case lines `c01.<sub> <args…> | <impl…>` (stub until the property is built) -/
+/-
+  Driver glue for C01 and C02 (they share the pipeline trace):
+    c01.run / c02.run <procs> <cap> <lowmem> <bcount> <workers> <retry> <dq> <failpat> <dqfailpat>
+            <chain> <jitter> <nsrc> <nev> (<src> s<k> <spec-hex>)…  |  <trace tokens…> <idle|stuck>
+  The model replays the M1 ops of the trace (Core.step?) and echoes the trace when every step
+  is enabled, `reject@<i> <token>` otherwise; P is the Spec oracle on the trace itself.
+-/
 import FileD.Prelude.Tok
+import FileD.Model.Core
+import FileD.Model.StreamProc
+import FileD.Spec.C01
 namespace FileD.DrvC01
+open FileD FileD.Core Tok
 
-def handle (_cmd : String) (_args _impl : List String) : Option (String × String) := none
+structure EvInfo where
+  off : Nat
+  st  : Nat
+deriving Repr
+
+/-- events of the case: offsets are src*100000 + 10*(index within source + 1), stream index src*1000+k -/
+def parseEvents : Nat → List String → List (Nat × Nat) → Option (List EvInfo)
+  | 0, [], _ => some []
+  | 0, _ :: _, _ => none
+  | n+1, src :: stream :: _spec :: rest, counts => do
+    let s ← nat? src
+    let k ← (stream.drop 1).toNat?
+    let c := (counts.find? (·.1 == s)).map (·.2) |>.getD 0
+    let counts' := (s, c + 1) :: counts.filter (·.1 != s)
+    let more ← parseEvents n rest counts'
+    pure (⟨s * 100000 + 10 * (c + 1), s * 1000 + k⟩ :: more)
+  | _, _, _ => none
+
+def evOf (infos : List EvInfo) (seqs : List (Nat × Nat)) (off : Nat) : Option Ev := do
+  let i ← infos.find? (·.off == off)
+  let q ← seqs.find? (·.1 == off)
+  pure ⟨i.st, q.2, off⟩
+
+def parseOffs (infos : List EvInfo) (seqs : List (Nat × Nat)) (s : String) : Option (List Ev) :=
+  if s = "" then some [] else (s.splitOn ",").mapM fun t => do evOf infos seqs (← nat? t)
+
+def isDQ (s : String) : Option Bool := if s = "M" then some false else if s = "D" then some true else none
+
+/-- one trace token → M1 op (none = token of the stream/processor layer, not an M1 step) -/
+def tokOp (infos : List EvInfo) (seqs : List (Nat × Nat)) (tok : String) : Option (Option Op) :=
+  match tok.splitOn ":" with
+  | ["put", o, q] => do
+    let off ← nat? o; let seq ← nat? q
+    let i ← infos.find? (·.off == off)
+    pure (some (.accept ⟨i.st, seq, off⟩))
+  | ["fin", o, f] => do
+    let off ← nat? o
+    match f with
+    | "1" => pure (some (.drop (← evOf infos seqs off)))
+    | "3" => pure (some (.commit (← evOf infos seqs off)))
+    | _ => pure none
+  | ["add", o, b] => do pure (some (.add (← isDQ b) (← evOf infos seqs (← nat? o))))
+  | ["seal", k, b] => do pure (some (.sealB (← isDQ b) (← nat? k)))
+  | ["bcm", k, b] => do pure (some (.bcommit (← isDQ b) (← nat? k)))
+  | ["send", b, k, r, offs] => do
+    let evs ← parseOffs infos seqs offs
+    if r = "ok" then pure (some (.sendOk (← isDQ b) (← nat? k) evs))
+    else pure (some (.sendFail (← isDQ b) (← nat? k) evs))
+  | ["giveup", b, offs] => do pure (some (.giveUp (← isDQ b) (← parseOffs infos seqs offs)))
+  | _ => pure none
+
+/-- offsets ↦ seq from the `put` tokens -/
+def seqsOf (trace : List String) : List (Nat × Nat) :=
+  trace.filterMap fun t =>
+    match t.splitOn ":" with
+    | ["put", o, q] => match o.toNat?, q.toNat? with
+      | some a, some b => some (a, b)
+      | _, _ => none
+    | _ => none
+
+def toOps (infos : List EvInfo) (trace : List String) : Option (List (String × Op)) :=
+  let seqs := seqsOf trace
+  let rec go : List String → Option (List (String × Op))
+    | [] => some []
+    | t :: ts => do
+      let o ← tokOp infos seqs t
+      let rest ← go ts
+      match o with
+      | some op => pure ((t, op) :: rest)
+      | none => pure rest
+  go trace
+
+def replay (hasDQ : Bool) (ops : List (String × Op)) : Option (Nat × String) :=
+  let rec go (s : State) (i : Nat) : List (String × Op) → Option (Nat × String)
+    | [] => none
+    | (t, op) :: rest =>
+      match step? s op with
+      | none => some (i, t)
+      | some s' => go s' (i + 1) rest
+  go (init hasDQ) 0 ops
+
+/-! M2: per-stream projection of the trace, replayed through StreamProc.step? -/
+
+/-- stream index of a `src.sK` token -/
+def streamTok (s : String) : Option Nat :=
+  match s.splitOn "." with
+  | [src, st] => do
+    let a ← nat? src
+    let k ← (st.drop 1).toNat?
+    pure (a * 1000 + k)
+  | _ => none
+
+def stOfOff (infos : List EvInfo) (off : Nat) : Option Nat := (infos.find? (·.off == off)).map (·.st)
+
+/-- (stream, op) pairs of the stream/processor layer; time-out gets are logged as `gtm:S` -/
+def toStreamOps (infos : List EvInfo) : List String → Option (List (String × Nat × StreamProc.Op))
+  | [] => some []
+  | t :: ts =>
+    match t.splitOn ":" with
+    | ["put", o, q] => do
+      let st ← stOfOff infos (← nat? o); let r ← toStreamOps infos ts
+      pure ((t, st, .put (← nat? q)) :: r)
+    | ["get", o, q] => do
+      let st ← stOfOff infos (← nat? o); let r ← toStreamOps infos ts
+      pure ((t, st, .get (← nat? q)) :: r)
+    | ["gtm", sk] => do let st ← streamTok sk; let r ← toStreamOps infos ts; pure ((t, st, .getTimeout) :: r)
+    | ["scm", o, q] => do
+      let off ← nat? o
+      let st ← stOfOff infos off; let r ← toStreamOps infos ts
+      pure ((t, st, .commit (← nat? q)) :: r)
+    | ["chg", sk] => do let st ← streamTok sk; let r ← toStreamOps infos ts; pure ((t, st, .charge) :: r)
+    | ["pop", sk] => do let st ← streamTok sk; let r ← toStreamOps infos ts; pure ((t, st, .pop) :: r)
+    | ["att", sk] => do let st ← streamTok sk; let r ← toStreamOps infos ts; pure ((t, st, .attach) :: r)
+    | ["lv", sk] => do let st ← streamTok sk; let r ← toStreamOps infos ts; pure ((t, st, .leave) :: r)
+    | ["det", sk] => do let st ← streamTok sk; let r ← toStreamOps infos ts; pure ((t, st, .detach) :: r)
+    | ["tmo", sk] => do let st ← streamTok sk; let r ← toStreamOps infos ts; pure ((t, st, .timeout) :: r)
+    | ["out", o, _p] => do
+      let off ← nat? o
+      let r ← toStreamOps infos ts
+      match stOfOff infos off with
+      | some st => pure ((t, st, .out off) :: r)      -- seq filled in by `resolve`
+      | none => pure r                                  -- child events (offset 0) are not stream events
+    | ["prop", o, _p] => do
+      let off ← nat? o; let st ← stOfOff infos off; let r ← toStreamOps infos ts
+      pure ((t, st, .propagate off) :: r)
+    | ["fin", o, f] => do
+      let off ← nat? o; let r ← toStreamOps infos ts
+      match stOfOff infos off, f with
+      | some st, "0" => pure ((t, st, .hold off) :: r)
+      | some st, "1" => pure ((t, st, .drop off) :: r)
+      | _, _ => pure r
+    | _ => toStreamOps infos ts
+
+/-- ops logged with an offset are rewritten to the event's sequence number -/
+def resolve (seqs : List (Nat × Nat)) : StreamProc.Op → Option StreamProc.Op
+  | .out off => (seqs.find? (·.1 == off)).map (fun p => .out p.2)
+  | .propagate off => (seqs.find? (·.1 == off)).map (fun p => .propagate p.2)
+  | .hold off => (seqs.find? (·.1 == off)).map (fun p => .hold p.2)
+  | .drop off => (seqs.find? (·.1 == off)).map (fun p => .drop p.2)
+  | op => some op
+
+/-- replay every stream's projection; first rejected token, if any -/
+def replayStreams (seqs : List (Nat × Nat)) (ops : List (String × Nat × StreamProc.Op)) : Option String :=
+  let rec go (states : List (Nat × StreamProc.SS)) : List (String × Nat × StreamProc.Op) → Option String
+    | [] => none
+    | (t, st, op) :: rest =>
+      let s := (states.find? (·.1 == st)).map (·.2) |>.getD {}
+      match resolve seqs op with
+      | none => some t
+      | some op' =>
+        match StreamProc.step? s op' with
+        | none => some t
+        | some s' =>
+          if s'.panicked then some t else go ((st, s') :: states.filter (·.1 != st)) rest
+  go [] ops
+
+def handle (cmd : String) (args impl : List String) : Option (String × String) :=
+  match args with
+  | _procs :: _cap :: _lowmem :: _bcount :: _workers :: _retry :: dq :: _fp :: _dfp :: _chain :: _jit :: _nsrc :: nev :: rest => do
+    let hasDQ ← bool? dq
+    let n ← nat? nev
+    let infos ← parseEvents n rest []
+    match impl.reverse with
+    | [] => none
+    | last :: revTrace =>
+      if last ≠ "idle" ∧ last ≠ "stuck" then
+        -- harness-level failure token (panic:…, bad-case…): nothing to replay
+        some (unwords impl, "fail:harness:0:0")
+      else
+      let trace := revTrace.reverse
+      match toOps infos trace with
+      | none => some ("bad-trace", "fail:bad-trace:0:0")
+      | some ops =>
+        let m := match replay hasDQ ops with
+          | some (i, t) => s!"reject@{i} {t}"
+          | none =>
+            match toStreamOps infos trace with
+            | none => "bad-stream-trace"
+            | some sops =>
+              match replayStreams (seqsOf trace) sops with
+              | some t => s!"reject-stream {t}"
+              | none => unwords impl
+        let opl := ops.map (·.2)
+        let p :=
+          if cmd = "c01.run" then SpecC01.verdict (SpecC01.frontier hasDQ opl)
+          else SpecC01.verdict (SpecC01.order hasDQ (last = "idle") opl)
+        let p := if last = "stuck" ∧ p = "ok" ∧ cmd = "c02.run" then "fail:stuck:0:0" else p
+        some (m, p)
+  | _ => none
 
 end FileD.DrvC01
